@@ -110,6 +110,19 @@ class STIXdatetime(dt.datetime):
         self.precision_constraint = precision_constraint
         return self
 
+    def __reduce_ex__(self, protocol):
+        # datetime's own implementation rebuilds through __new__ and would
+        # lose the precision info on copy.copy(), copy.deepcopy() and pickling.
+        plain = dt.datetime(
+            self.year, self.month, self.day, self.hour, self.minute,
+            self.second, self.microsecond, self.tzinfo, fold=self.fold,
+        )
+        state = {
+            "precision": self.precision,
+            "precision_constraint": self.precision_constraint,
+        }
+        return (type(self), (plain,), state)
+
     def __repr__(self):
         return "'%s'" % format_datetime(self)
 
